@@ -420,7 +420,7 @@ func (g *jsonGen) number() {
 
 const jsonPunct = " !#$%&'()*+,-./:;<=>?@[]^_`{|}~\x7f"
 
-var jsonKeys = []string{"a", "b", "__proto__", "a", "x y", "", "1", "0", "10", "2", "constructor", "toString", "default", "if", "é", "中", "k", "__proto__ ", "-1", "01", "4294967295", "4294967294"}
+var jsonKeys = []string{"a", "b", "__proto__", "a", "x y", "", "1", "0", "10", "2", "constructor", "toString", "default", "if", "é", "中", "k", "__proto__ ", "-1", "01", "4294967295", "4294967294", "await", "eval", "arguments", "yield", "let", "static", "enum", "async", "x\U00010000"}
 
 func (g *jsonGen) stringBody(key bool) {
 	r := g.r
